@@ -295,9 +295,47 @@ def cred_other_curve_same_xy(s, r):
     m[-1] = r.choice([2, 3])
     s.k["cose_bytes"] = cbor2.dumps(m)
 
+def cred_xy_split_elsewhere(s, r):
+    # the credential key's x and y members are two byte strings, each a coordinate: moving bytes across the boundary between them (x shorter, y longer, the
+    # CONCATENATION unchanged) names other numbers - not the key the certificate / the signature is about
+    m = dict(Cred(s.kind).cose)
+    if -3 not in m:
+        return self_other_key(s, r)
+    X, Y = m[-2], m[-3]
+    k_ = r.choice([len(X) - 1, len(X) - 2, 1, len(X) + 1, len(X) + 7])
+    xy = X + Y
+    m[-2], m[-3] = xy[:k_], xy[k_:]
+    s.k["cose_bytes"] = cbor2.dumps(m)
+
+
+def _ca_carries_a_clean_key_description(fault):
+    """the android-key fault `fault` on the credential certificate, while a CA certificate ABOVE it in x5c carries a fault-free KeyDescription for this very ceremony:
+    the statements that count are those of x5c[0]"""
+    def f(s, r):
+        fault(s, r)
+        s.n_inter = max(1, s.n_inter)
+        where = r.choice(["intermediate", "intermediate", "appended-root"])
+        def x5c(pki, leaf):
+            kd = regsim.key_description(pki.ceremony["cdh"])
+            ext = (x509.UnrecognizedExtension(x509.ObjectIdentifier("1.3.6.1.4.1.11129.2.1.17"), kd), False)
+            inters = list(reversed(pki.inters))
+            out = [regsim.der(leaf)]
+            if where == "intermediate":
+                top = pki.inters[0]
+                issuer_key = pki.root_key
+                re_issued = regsim.make_cert(top.subject, top.issuer, top.public_key(), issuer_key, ca=True, exts=[ext])
+                out += [regsim.der(c) for c in inters[:-1]] + [regsim.der(re_issued)]
+            else:
+                re_root = regsim.make_cert(pki.root.subject, pki.root.subject, pki.root_key.public_key(), pki.root_key, ca=True, exts=[ext], serial=4243)
+                out += [regsim.der(c) for c in inters] + [regsim.der(re_root)]
+            return out
+        s.k["x5c_override"] = x5c
+    return f
+
+
 FORMAT_FAULTS = {
     "packed-self": {
-        "alg-disagrees-with-key": self_alg_mismatch, "signed-by-other-key": self_other_key, "signed-other-authdata": signed_other_ad,
+        "credential-key-coordinates-split-elsewhere": cred_xy_split_elsewhere, "alg-disagrees-with-key": self_alg_mismatch, "signed-by-other-key": self_other_key, "signed-other-authdata": signed_other_ad,
         "signed-other-clientdata": signed_other_cdh, "wrong-scheme": self_wrong_scheme, "sig-missing": stmt_drop("sig"), "alg-missing": stmt_drop("alg"),
     },
     "packed": {
@@ -331,11 +369,11 @@ FORMAT_FAULTS = {
     },
     "apple": {
         "nonce-other-authdata": signed_other_ad, "nonce-other-clientdata": signed_other_cdh, "nonce-extension-absent": set_k(apple_no_ext=True),
-        "nonce-empty": set_k(apple_nonce_cut=0), "nonce-truncated": set_k(apple_nonce_cut=16), "credential-key-other-curve-same-xy": cred_other_curve_same_xy,
+        "credential-key-coordinates-split-elsewhere": cred_xy_split_elsewhere, "nonce-empty": set_k(apple_nonce_cut=0), "nonce-truncated": set_k(apple_nonce_cut=16), "credential-key-other-curve-same-xy": cred_other_curve_same_xy,
         "certificate-key-differs": apple_leaf_other_key, "nonce-prefix-shorter": set_k(apple_ext_prefix=b"\x30\x23\xa1\x21\x04"), "x5c-missing": stmt_drop("x5c"),
     },
     "android-key": {
-        "signed-by-other-key": ak_sig_other_key, "signed-other-authdata": signed_other_ad, "certificate-key-differs": ak_leaf_other_key,
+        "signed-by-other-key": ak_sig_other_key, "signed-other-authdata": signed_other_ad, "certificate-key-differs": ak_leaf_other_key, "credential-key-coordinates-split-elsewhere": cred_xy_split_elsewhere,
         "challenge-other": set_k(ak_challenge=hashlib.sha256(b"other").digest()), "challenge-empty": set_k(ak_challenge=b""), "credential-key-other-curve-same-xy": cred_other_curve_same_xy, "allApplications-software": set_k(ak_sw_all=True),
         "allApplications-tee": set_k(ak_tee_all=True), "origin-imported": set_k(ak_origin=2), "origin-absent": set_k(ak_origin=None),
         "purpose-verify": set_k(ak_purpose=(3,)), "purpose-sign-and-verify": set_k(ak_purpose=(2, 3)), "purpose-absent": set_k(ak_purpose=None),
@@ -560,6 +598,8 @@ def ch_pinned_selfsigned_leaf_expired(s, r):
 def ch_pinned_leaf_future(s, r):
     s.roots_mode = "pin-leaf-and-root"; s.k["leaf_nb"], s.k["leaf_na"] = T0 + 60, T0 + 400 * DAY
 
+for _n in ("challenge-other", "challenge-empty", "allApplications-tee", "allApplications-software", "origin-imported", "origin-absent", "purpose-verify", "purpose-absent", "extension-absent"):
+    FORMAT_FAULTS["android-key"][_n + ":a-ca-certificate-above-carries-a-clean-key-description"] = _ca_carries_a_clean_key_description(FORMAT_FAULTS["android-key"][_n])
 CHAIN_FAULTS = {
     "legacy-root-without-basic-constraints:corrupted-signature": ch_nobc_root_bad_sig,
     "legacy-root-without-basic-constraints:expired-leaf": ch_nobc_root_expired_leaf,
